@@ -50,7 +50,7 @@ func runC13(w *mc.Worker) {
 		nd, pd, qd = 3, 3, 3
 	}
 	one := big.NewRat(1, 1)
-	varScript, ok := mustParse(w, "vars { portion $p monetary $t }\nsend $t ( source = @world destination = { $p to @a remaining to @b } )\n")
+	varScript, ok := mustParse(w, "vars { portion $p monetary $t }\nsend $t ( source = @world destination = { $p to @a remaining to @b } )\nset_account_meta ( @acc , \"k\" , $p )\nset_tx_meta ( \"k\" , $p )\nsend $t ( source = @world destination = { $p to @c remaining to @d } )\n")
 	if !ok {
 		return
 	}
@@ -91,6 +91,18 @@ func runC13(w *mc.Worker) {
 				got = new(big.Int)
 			}
 			w.Eval(key, nt, route+":ok")
+			if route == "variable" {
+				// the variable is used again after the split: written to metadata, and in a second split
+				stored := out.AcctMeta["acc"]["k"]
+				if back := ref.PortionOfText(stored); back == nil || back.Cmp(want) != 0 {
+					c.Observed = "after a first use in a split the variable was stored as " + fmt.Sprintf("%q", stored)
+					w.Violation("C13.value:variable-reuse", fmt.Sprintf("portion variable %q (= %s) no longer denotes that number when it is used a second time", text, want.RatString()), len(text), c)
+				}
+				if g2 := credits(out.Postings)["c"]; (g2 == nil && expA.Sign() != 0) || (g2 != nil && g2.Cmp(expA) != 0) {
+					c.Observed = fmt.Sprintf("second split with the same variable credited %v", g2)
+					w.Violation("C13.value:variable-reuse", fmt.Sprintf("portion variable %q (= %s) no longer denotes that number when it is used a second time", text, want.RatString()), len(text), c)
+				}
+			}
 			if got.Cmp(expA) != 0 {
 				c.Observed = "credit of @a = " + got.String()
 				w.Violation("C13.value:"+route, fmt.Sprintf("portion text %q denotes %s; the %s route used %s/%s of the total", text, want.RatString(), route, got, T), len(text), c)
